@@ -1846,7 +1846,7 @@ class Interp:
             if m is not None:
                 yield from self.call(st, VConst(m), [a, b], {}, node)
                 return
-        if isinstance(b, VRef) and isinstance(st.heap[b.addr], HObj) and not isinstance(a, VRef):
+        if isinstance(b, VRef) and isinstance(st.heap[b.addr], HObj):
             # reflected comparison: int < obj  ->  obj.__gt__(int)
             nm = {ast.Lt: '__gt__', ast.LtE: '__ge__', ast.Gt: '__lt__', ast.GtE: '__le__'}[type(op)]
             m = self.class_attr(st.heap[b.addr].cls, nm)
